@@ -1209,7 +1209,10 @@ class RChecker(Checker):
             return d
         if dest is not None and d.get('dest') != dest:
             got_d = d.get('dest') or ''
-            if got_d.startswith('this.') or re.match(r'^arg\d', got_d) or got_d.startswith('copy('):
+            if dest.endswith('[+]') and got_d.startswith(dest[:-3] + '[') and 'local:' in got_d:
+                # the same container, filled by position instead of by appending: which positions is not read by the rule
+                self.shape(slot, d['where'], 'value is stored to %s (a computed position of the expected container); expected an append %s' % (got_d, dest))
+            elif got_d.startswith('this.') or re.match(r'^arg\d', got_d) or got_d.startswith('copy('):
                 self.bad(slot, d['where'], 'value is stored to %s, expected %s' % (d.get('dest'), dest), facts={'cite': cite})
             else:
                 # a local / a returned value / an argument of a call: the value travels through an intermediate the rule does not follow
@@ -2182,6 +2185,74 @@ def parameters_writer_rule(prog, res, rule='parameters-write'):
     return p2
 
 
+def sign_carry_rule(prog, res, rule, walker, nl):
+    """the sign of the name-length byte is the lock flag of the record: it reaches Group::read / Parameter::read as it was read.
+    (a) the walker's variable is not rewritten between the read and the hand-over, unless the flag is re-applied with lock() under
+    a test saved from the sign; (b) Group::parameter(c3d&, int) hands its length argument to Parameter::read unchanged."""
+    if nl is None:
+        return
+    R = Renderer(walker)
+    var = re.sub(r'@\d+$', '', nl)
+    rewrites = []
+    for n in walker.all_nodes({'BinaryOperator'}):
+        if n['op'] == '=' and R.render(n['ch'][0]) == var and not any(walker.nodes[x]['k'] == 'CXXMemberCallExpr' and walker.nodes[x]['callee']['name'] in codec.READERS for x in walker.descendants(n['ch'][1])):
+            rewrites.append(n)
+    calls = [c for c in walker.calls() if c['callee']['qname'].endswith('GroupNS::Group::read') or (c['callee']['qname'].endswith('GroupNS::Group::parameter') and c['callee'].get('nparams') == 2)]
+    g = walker.events()
+    for c in calls:
+        what = 'group' if c['callee']['name'] == 'read' else 'parameter'
+        inst = 'walker.sign.%s' % what
+        args = walker.call_args(c)
+        a1 = R.render(args[1]) if len(args) > 1 else None
+        cv = g.vertex_of.get(c['id'])
+        before = [n for n in rewrites if cv is not None and g.vertex_of.get(n['id']) is not None and cv in g.reach([g.vertex_of[n['id']]])]
+        if a1 == var and not before:
+            res.ok(rule, inst, walker.loc(c['id']), 'the %s record reader receives the name length as read (sign = lock flag)' % what, function=walker.sig, expr=inst)
+            continue
+        dropped = (a1 is not None and re.match(r'^(?:\(int\))?abs\(%s\)$' % re.escape(var), a1)) or (a1 == var and before and all(re.match(r'^(?:\(int\))?abs\(%s\)$' % re.escape(var), R.render(n['ch'][1])) for n in before))
+        if dropped:
+            # re-applied afterwards?  obj.lock() on the same object, under a bool saved from (var < 0) before the rewrite
+            obj = R.render(walker.call_obj(c)) if walker.call_obj(c) is not None else None
+            comp = False
+            for l_ in walker.calls():
+                if l_['callee']['name'] == 'lock' and walker.call_obj(l_) is not None and R.render(walker.call_obj(l_)) == obj and cv is not None and g.vertex_of.get(l_['id']) is not None and g.dominates(cv, g.vertex_of[l_['id']]):
+                    import indexsites as _ISx
+                    for fl_, op_, fr_, _x in _ISx.facts_at(walker, R, l_['id']):
+                        if ('(%s < 0)' % var) in str(fl_) or (str(fl_) == var and op_ == '<' and str(fr_) == '0'):
+                            comp = True
+                    for i_ in walker.all_nodes({'IfStmt'}):
+                        if l_['id'] in walker.descendants(i_['then']):
+                            cn = walker.nodes[walker.strip(i_['cond'], 'all')]
+                            if cn['k'] == 'DeclRefExpr' and cn['decl'].get('dk') == 'local':
+                                from paths import local_init as _li2
+                                ini = _li2(walker, cn['decl']['id'])
+                                if ini is not None and R.render(ini).replace('(bool)', '') in ('(%s < 0)' % var, '(0 > %s)' % var):
+                                    comp = True
+            if comp:
+                res.ok(rule, inst, walker.loc(c['id']), 'the sign is taken off the name length and re-applied with lock() under the saved test', function=walker.sig, expr=inst)
+            else:
+                res.viol(rule, inst, walker.loc(c['id']), 'the %s record reader receives the name length without its sign and the lock flag is not re-applied: every locked %s loads as unlocked' % (what, what),
+                         function=walker.sig, expr=inst, sure=True)
+            continue
+        res.undecided(rule, inst, walker.loc(c['id']), 'the name length reaches the %s record reader as %s after the variable was rewritten: not a form the rule reads [shape not read by the rule]' % (what, a1),
+                      function=walker.sig, expr=inst)
+    gp = [f_ for f_ in prog.fns('ezc3d::ParametersNS::GroupNS::Group::parameter') if len(f_.params) == 2 and 'c3d' in f_.params[0]['type']]
+    for f_ in gp:
+        Rg = Renderer(f_)
+        for c in f_.calls():
+            if not c['callee']['qname'].endswith('GroupNS::Parameter::read'):
+                continue
+            args = f_.call_args(c)
+            a1 = Rg.render(args[1]) if len(args) > 1 else None
+            inst = 'group.parameter.sign'
+            if a1 == 'arg1':
+                res.ok(rule, inst, f_.loc(c['id']), 'Group::parameter hands the name length to Parameter::read as received', function=f_.sig, expr=inst)
+            elif a1 is not None and (' ? ' in a1 or re.search(r'-\(?abs\(|^-|\(-', a1) or re.match(r'^(?:\(int\))?abs\(arg1\)$', a1)):
+                res.viol(rule, inst, f_.loc(c['id']), 'Parameter::read receives %s instead of the name length as read: the lock flag of the parameter no longer comes from its own record' % a1, function=f_.sig, expr=inst, sure=True)
+            else:
+                res.undecided(rule, inst, f_.loc(c['id']), 'Parameter::read receives %s [shape not read by the rule]' % a1, function=f_.sig, expr=inst)
+
+
 def parameters_reader_rule(prog, res, rule='parameters-read'):
     spec = load_spec()
     PL = {s['name']: s for s in spec['parameter_prologue']}
@@ -2219,10 +2290,12 @@ def parameters_reader_rule(prog, res, rule='parameters-read'):
                 return None
             x = m_.group(1) or m_.group(2)
             return re.sub(r'\((?:unsigned long|size_t|unsigned int|int)\)', '', x).replace('((', '(').strip()
+        # the name length as read, or its magnitude (what becomes of the sign - the lock flag - is judged by the sign-carry rule below)
+        nl_ok = lambda a_: a_ is not None and nl is not None and re.sub(r'^\(int\)', '', a_) in (nl, 'abs(%s)' % nl)
         okg = len(th) == 1 and th[0][0] == 'call' and th[0][1].qname.endswith('Group::read') and \
-            pos_of(th[0][2].get('this')) in ('(abs(%s) - 1)' % idv, 'abs(%s) - 1)' % idv, '(abs(%s) - 1' % idv) and th[0][2].get('arg1') == nl
+            pos_of(th[0][2].get('this')) in ('(abs(%s) - 1)' % idv, 'abs(%s) - 1)' % idv, '(abs(%s) - 1' % idv) and nl_ok(th[0][2].get('arg1'))
         okp = len(el) == 1 and el[0][0] == 'call' and el[0][1].qname.endswith('Group::parameter') and \
-            pos_of(el[0][2].get('this')) in ('(%s - 1)' % idv, '%s - 1)' % idv, '(%s - 1' % idv, '(abs(%s) - 1)' % idv, 'abs(%s) - 1)' % idv, '(abs(%s) - 1' % idv) and el[0][2].get('arg1') == nl
+            pos_of(el[0][2].get('this')) in ('(%s - 1)' % idv, '%s - 1)' % idv, '(%s - 1' % idv, '(abs(%s) - 1)' % idv, 'abs(%s) - 1)' % idv, '(abs(%s) - 1' % idv) and nl_ok(el[0][2].get('arg1'))
         if okg and okp:
             w.ok('dispatch', w.where(alt), 'id < 0: group record into position |id|-1; id > 0: parameter record into group position id-1 (inverse of the writer\'s -(i+1))')
         else:
@@ -2230,6 +2303,7 @@ def parameters_reader_rule(prog, res, rule='parameters-read'):
                   (th[0][2] if th and th[0][0] == 'call' else th, el[0][2] if el and el[0][0] == 'call' else el))
     w.done()
     ck.done()
+    sign_carry_rule(prog, res, rule, f, nl)
     # terminator: a zero name length ends the chain; consistency check of the chain position
     term = False
     chain = False
@@ -2305,6 +2379,18 @@ def frame_reader_rule(prog, res, rule='frame-read'):
     if len(loops) != 1:
         res.undecided(rule, inst, f.loc(), 'expected one loop over the header frame count, found %d loops with reads [shape not read by the rule]' % len(loops), function=f.sig, expr=inst)
         return
+    if pshow(loops[0][1]) == 'this._frames.size':
+        # the loop walks the frame store itself: the same count when the store was sized with the header frame count beforehand (and only then)
+        Rf_ = Renderer(f)
+        g_ = f.events()
+        lv_ = g_.vertex_of.get(loops[0][4])
+        rs_ = [c_ for c_ in f.calls() if c_['callee']['name'] == 'resize' and c_.get('obj') is not None and Rf_.render(c_['obj']) == 'this._frames']
+        sized = [c_ for c_ in rs_ if len(f.call_args(c_)) == 1 and Rf_.render(f.call_args(c_)[0]) in FRAMES + ('(unsigned long)arg0._header.nbFrames()',)]
+        if len(rs_) == 1 and sized and lv_ is not None and g_.vertex_of.get(sized[0]['id']) is not None and g_.dominates(g_.vertex_of[sized[0]['id']], lv_):
+            loops[0] = tuple(loops[0][:1]) + ({('arg0._header.nbFrames()',): 1},) + tuple(loops[0][2:])
+        elif rs_:
+            res.undecided(rule, inst, f.loc(loops[0][4]), 'the frame loop walks the frame store, whose size at that point the rule cannot relate to the header frame count [shape not read by the rule]', function=f.sig, expr=inst)
+            return
     if pshow(loops[0][1]) not in FRAMES:
         (res.viol if recognisable(loops[0]) else res.undecided)(rule, inst, f.loc(loops[0][4]), 'the frame loop runs %s times; specified the header frame count' % pshow(loops[0][1]),
                                                                function=f.sig, expr=inst)
@@ -2789,9 +2875,57 @@ def load_order_rule(prog, res, rule='load-order'):
                  function=f.sig, expr='order')
 
 
+def stream_reuse_rule(prog, res, rule, fns):
+    """a string stream that builds a name per element: declared inside the loop (a fresh one each time) or emptied with
+    str("") before reuse.  One stream declared outside the loop, written with << and read with str() inside it, accumulates the
+    names of all earlier elements - clear() resets the error flags, not the text."""
+    LOOPS = {'ForStmt', 'WhileStmt', 'DoStmt', 'CXXForRangeStmt'}
+    for f in fns:
+        R = Renderer(f)
+        loops = [n for n in f.all_nodes(LOOPS)]
+        if not loops:
+            continue
+        for dn in f.all_nodes({'DeclStmt'}):
+            for d in dn['decls']:
+                if not re.search(r'basic_(o)?stringstream', str(d.get('type', ''))) or d.get('dk') != 'local':
+                    continue
+                inside = [lp for lp in loops if dn['id'] in f.descendants(lp['id'])]
+                uses = [n for n in f.nodes if n['k'] in ('CXXOperatorCallExpr', 'CXXMemberCallExpr') and 'callee' in n]
+                ins, reads, resets = [], [], []
+                for n in uses:
+                    o = f.call_obj(n)
+                    root = f.nodes[f.strip(o, 'all')] if o is not None else None
+                    # chained insertions: (s << a) << b  - follow the left operand down to the declaration
+                    hops = 0
+                    while root is not None and root['k'] == 'CXXOperatorCallExpr' and root.get('op') == '<<' and root.get('args') and hops < 12:
+                        root = f.nodes[f.strip(root['args'][0], 'all')]
+                        hops += 1
+                    if root is None or root['k'] != 'DeclRefExpr' or root['decl'].get('id') != d['id']:
+                        continue
+                    if n['k'] == 'CXXOperatorCallExpr' and n.get('op') == '<<':
+                        ins.append(n)
+                    elif n['callee']['name'] == 'str' and not f.call_args(n):
+                        reads.append(n)
+                    elif n['callee']['name'] == 'str' and f.call_args(n):
+                        resets.append(n)
+                inst = 'name stream `%s` in %s' % (d['name'], f.name)
+                outer = [lp for lp in loops if lp not in inside and any(n['id'] in f.descendants(lp['id']) for n in ins) and any(n['id'] in f.descendants(lp['id']) for n in reads)]
+                if not outer:
+                    if ins and reads:
+                        res.ok(rule, inst, f.loc(dn['id']), 'a fresh stream per element (declared inside the loop that fills and reads it)', function=f.sig, expr='stream:' + d['name'], nontrivial=False)
+                    continue
+                lp = outer[0]
+                if any(n['id'] in f.descendants(lp['id']) for n in resets):
+                    res.ok(rule, inst, f.loc(dn['id']), 'reused across iterations and emptied with str(...) inside the loop', function=f.sig, expr='stream:' + d['name'])
+                else:
+                    res.viol(rule, inst, f.loc(ins[0]['id']), 'the stream is declared outside the loop at %s, written with << and read with str() inside it, and never emptied with str(\"\"): the text of every earlier '
+                             'element stays in front of the next one (clear() only resets the error flags)' % f.loc(dn['id']), function=f.sig, expr='stream:' + d['name'], sure=True)
+
+
 def label_binding_rule(prog, res, rule='label-binding'):
     f = prog.fn('ezc3d::DataNS::Data::Data', nparams=1)
     R = Renderer(f)
+    stream_reuse_rule(prog, res, rule, [fn_ for fn_, _s in _helper_family(prog, [f])])
     found = {}
     names_kind = {}
     wrong = []
